@@ -249,7 +249,11 @@ func (s *Session) GetActiveStreamCount() int {
 // OpenStream is used to create a new stream
 func (s *Session) OpenStream() (*Stream, error) {
 	if s.IsClosed() {
-		return nil, s.shutdownErr
+		if err := s.shutdownErr; err != nil {
+			return nil, err
+		}
+		// Close() publishes the shutdown flag before it records shutdownErr
+		return nil, ErrSessionShutdown
 	}
 	if !s.IsHealthy() {
 		return nil, ErrSessionUnhealthy
